@@ -43,6 +43,59 @@ theorem coefficients_ge (b : List K) (hb : b ≠ []) (lb s : K) (h0 : 0 ≤ s) (
   rw [List.getD_eq_getElem?_getD, List.getElem?_eq_getElem this]
   exact h _ (List.getElem_mem this)
 
+/-! #### how conservative the certificate is (tightness, partial): the first and the last coefficient ARE the polynomial's values at
+the two ends of the step, so those two rows are necessary as well as sufficient; for a constraint that is affine along the step the
+certificate is equivalent to the constraint on the whole step. (That the gap closes as `M` grows for curved constraints is measured
+by the check, not proved.) -/
+
+theorem bw_zero (n i : Nat) : bw n i (0 : K) = if i = 0 then 1 else 0 := by
+  unfold bw
+  cases i with
+  | zero => simp
+  | succ i => simp
+
+theorem bw_one (n i : Nat) (hi : i ≤ n) : bw n i (1 : K) = if i = n then 1 else 0 := by
+  unfold bw
+  by_cases h : i = n
+  · subst h; simp
+  · have : n - i ≠ 0 := by omega
+    simp [h, this]
+
+/-- the first Bernstein coefficient is the value at the start of the step … -/
+theorem first_coefficient_is_start_value (b : List K) (hb : b ≠ []) : bernsteinEval b 0 = b.getD 0 0 := by
+  rw [bernsteinEval_eq_sum]
+  have hpos : 0 < b.length := List.length_pos_iff.mpr hb
+  rw [Finset.sum_eq_single 0]
+  · simp [bw_zero]
+  · intro i _ hi; simp [bw_zero, hi]
+  · intro h; exact absurd (Finset.mem_range.mpr hpos) h
+
+/-- … and the last one the value at its end -/
+theorem last_coefficient_is_end_value (b : List K) (hb : b ≠ []) : bernsteinEval b 1 = b.getD (b.length - 1) 0 := by
+  rw [bernsteinEval_eq_sum]
+  have hpos : 0 < b.length := List.length_pos_iff.mpr hb
+  rw [Finset.sum_eq_single (b.length - 1)]
+  · simp [bw_one]
+  · intro i hi hne
+    have hi' : i < b.length := by simpa using hi
+    rw [bw_one (b.length - 1) i (by omega)]
+    simp [hne]
+  · intro h; exact absurd (Finset.mem_range.mpr (by omega)) h
+
+/-- **for a constraint that is affine along the step the certificate is exact**: both coefficients non-negative iff the
+polynomial is non-negative on the whole step -/
+theorem affine_certificate_iff (b0 b1 : K) :
+    (0 ≤ b0 ∧ 0 ≤ b1) ↔ ∀ s, 0 ≤ s → s ≤ 1 → 0 ≤ bernsteinEval [b0, b1] s := by
+  constructor
+  · rintro ⟨h0, h1⟩ s hs0 hs1
+    exact coefficients_ge [b0, b1] (by simp) 0 s hs0 hs1 (by intro x hx; simp at hx; rcases hx with rfl | rfl <;> assumption)
+  · intro h
+    have a := h 0 (le_refl _) zero_le_one
+    have b := h 1 zero_le_one (le_refl _)
+    rw [first_coefficient_is_start_value _ (by simp)] at a
+    rw [last_coefficient_is_end_value _ (by simp)] at b
+    simpa using And.intro a b
+
 end certificate
 
 /-! ### the conversion the code performs -/
